@@ -15,10 +15,14 @@ import (
 // State-dependent parts (cancel before Wait) are ordinary SMT obligations.
 func disciplineObligations(fn *ssa.Function, name string, fc *FuncContract, enc *Enc) []*Obligation {
 	v, ok := fc.Opts["cancelable"]
-	if !ok {
+	nb, okNB := fc.Opts["nonblocking"]
+	if !ok && !okNB {
 		return nil
 	}
 	tags := splitList(strings.Trim(v, "[]"))
+	if okNB {
+		tags = splitList(strings.Trim(nb, "[]"))
+	}
 	var out []*Obligation
 	isDone := func(ch ssa.Value) bool {
 		c, ok := ch.(*ssa.Call)
@@ -46,6 +50,31 @@ func disciplineObligations(fn *ssa.Function, name string, fc *FuncContract, enc 
 			Label: label, Tags: tags, Goal: goal, Guard: "true", Enc: enc, Src: src,
 			Where:  fmt.Sprintf("%s:%d", shortPath(p.Filename), p.Line),
 			Result: &SolveResult{Status: st, Solver: "ssa-dataflow", All: map[string]string{"ssa-dataflow": st}}})
+	}
+	if okNB {
+		// `opt nonblocking`: no channel operation of the function may block
+		for _, b := range fn.Blocks {
+			for _, in := range b.Instrs {
+				switch in := in.(type) {
+				case *ssa.UnOp:
+					if in.Op == token.ARROW {
+						add("no-blocking-recv", false, "blocking receive in a function that must never block", in.Pos())
+					}
+				case *ssa.Send:
+					add("no-blocking-send", false, "blocking send in a function that must never block (a full subscriber buffer would stall it)", in.Pos())
+				case *ssa.Select:
+					add("select-has-default", !in.Blocking, "select must have a default case so that a full buffer drops the event instead of blocking", in.Pos())
+				case ssa.CallInstruction:
+					if sc := in.Common().StaticCallee(); sc != nil && (sc.String() == "time.Sleep" || strings.HasSuffix(sc.String(), ".Wait")) {
+						add("no-wait", false, "waiting call in a function that must never block", in.Pos())
+					}
+				}
+			}
+		}
+		if len(out) == 0 {
+			add("no-channel-ops", true, "function has no channel operation", fn.Pos())
+		}
+		return out
 	}
 	for _, b := range fn.Blocks {
 		for _, in := range b.Instrs {
